@@ -10,7 +10,7 @@ use std::ffi::OsString;
 
 pub static DEF: PropDef = PropDef {
     id: "C20",
-    rule: "random: 0-12 input lines built from words, inner and trailing blanks, the replacement string R itself, '{}', '%', multi-byte text (1 case in 8 written in Latin-1, so that such lines are not valid UTF-8; compared byte for byte), glob and shell characters (no quotes, backslashes or leading blanks: the statement's domain), blank lines in between, with/without final newline; sub-run delimited: replace mode on -0 / -d ',' input whose items start with blanks and hold quotes, backslashes and (with -0) newlines - ordinary bytes there; sub-run long-input: 1-3 filler lines bring the first run of 2-4 empty lines onto a multiple of 4096/8192/16384 bytes (offset 0..run+1), so that the run is split between two reads; 0-4 initial arguments each holding 0-3 occurrences of R (adjacent, embedded, alone); R in {'{}', '_', 'XX', '%', 'é', '{', '{}{}'}; spellings -I R / -i / --replace / --replace=R; mode options: -I alone, or 2-3 of -I R, -n k, -L k (k in 1..3) in every order. Exhaustive sub-run: the full order matrix of {-I, -n k, -L k} (k in 1..3), 2 or 3 of them, on a fixed three-line input. Oracle: replace mode: records == for each non-empty line in order [initial args with every R replaced by the whole line], nothing appended, exit 0, empty input => no record; the mode is decided by the last of -I/-n/-L (-I with -n 1 in either order is replace mode); -n/-L modes are modelled as in C04 (blank splitting, k arguments / k lines per invocation, initial arguments unchanged). Non-trivial = (a line contains a blank or R, and some initial argument contains R at least twice) or >= 2 mode options are present. Distinct = distinct case JSON.",
+    rule: "random: 0-12 input lines built from words, inner and trailing blanks, the replacement string R itself, '{}', '%', multi-byte text (1 case in 8 written in Latin-1, so that such lines are not valid UTF-8; compared byte for byte), glob and shell characters (no quotes, backslashes or leading blanks: the statement's domain), blank lines in between, with/without final newline; sub-run delimited: replace mode on -0 / -d ',' input whose items start with blanks and hold quotes, backslashes and (with -0) newlines - ordinary bytes there; sub-run long-input: 1-3 filler lines bring the first run of 2-4 empty lines onto a multiple of 4096/8192/16384 bytes (offset 0..run+1), so that the run is split between two reads; (1 case in 25 without any command: the built-in echo must then print one empty line per input line) 0-4 initial arguments each holding 0-3 occurrences of R (adjacent, embedded, alone); R in {'{}', '_', 'XX', '%', 'é', '{', '{}{}'}; spellings -I R / -i / --replace / --replace=R; mode options: -I alone, or 2-3 of -I R, -n k, -L k (k in 1..3) in every order. Exhaustive sub-run: the full order matrix of {-I, -n k, -L k} (k in 1..3), 2 or 3 of them, on a fixed three-line input. Oracle: replace mode: records == for each non-empty line in order [initial args with every R replaced by the whole line], nothing appended, exit 0, empty input => no record; the mode is decided by the last of -I/-n/-L (-I with -n 1 in either order is replace mode); -n/-L modes are modelled as in C04 (blank splitting, k arguments / k lines per invocation, initial arguments unchanged). Non-trivial = (a line contains a blank or R, and some initial argument contains R at least twice) or >= 2 mode options are present. Distinct = distinct case JSON.",
     assumptions: &[
         "lines are free of quotes, backslashes and leading blanks (stated domain); a line of only blanks is not generated",
         "three mode options that include -I, -n 1 and -L together are not generated: 'last wins' and '-I with -n 1 is not a conflict' do not settle which mode results",
@@ -51,6 +51,9 @@ pub struct Case {
     /// hold quotes and backslashes, which -0/-d make ordinary bytes
     #[serde(default)]
     pub delim: u8,
+    /// no command at all: xargs' own echo runs, with nothing to substitute into and nothing appended
+    #[serde(default)]
+    pub no_command: bool,
 }
 
 /// the bytes a line is written as
@@ -165,7 +168,7 @@ pub fn gen_case(g: &mut Gen) -> Case {
             v
         }
     };
-    Case { lines, blanks_before, final_newline: g.chance(4, 5), initial, r, spelling, modes, lead: vec![], latin1: g.chance(1, 8), delim: 0 }
+    Case { lines, blanks_before, final_newline: g.chance(4, 5), initial, r, spelling, modes, lead: vec![], latin1: g.chance(1, 8), delim: 0, no_command: g.chance(1, 25) }
 }
 
 /// replace mode on -0 / -d ',' input: items that begin with blanks and contain quotes, backslashes
@@ -330,6 +333,18 @@ pub fn check(ctx: &mut Ctx, c: &Case) -> Outcome {
     };
     let input = render_input(c);
     let lines = all_lines(c);
+    if c.no_command && eff == Eff::Replace {
+        // one run of the built-in echo per non-empty line, each printing an empty line
+        let run = run_xargs(ctx, &cmdline(c), &[], &input, "", BinOpts { clear_env: true, ..Default::default() });
+        let want: Vec<u8> = std::iter::repeat(b'\n').take(lines.len()).collect();
+        if !run.out.ordinary() || run.out.code != Some(0) || run.out.stdout != want {
+            return fail(
+                "C20:no-command:line-appended-or-wrong-number-of-runs",
+                format!("xargs {} (no command)\ninput {:?}\nexit {:?}\nstdout {:?}\nexpected stdout {:?} (the default command echo, run once per line with no arguments)\nstderr {:?}", cmdline(c).iter().map(|o| o.to_string_lossy().into_owned()).collect::<Vec<_>>().join(" "), lossy(&input), run.out.code, lossy(&run.out.stdout), lossy(&want), lossy(&run.out.stderr)),
+            );
+        }
+        return Pass::new(lines.len() >= 2).class("replace-mode").class("no-command").ok();
+    }
     let opts = cmdline(c);
     let mut cmd: Vec<OsString> = vec![rec_path()];
     cmd.extend(c.initial.iter().map(OsString::from));
@@ -434,7 +449,7 @@ fn run(w: &mut Worker) {
         ModeOpt::N(_) => 1,
         ModeOpt::L(_) => 2,
     };
-    let base = |modes: Vec<ModeOpt>, spelling: u8| Case { lines: vec!["a b".into(), "c".into(), "d e f".into(), "g".into(), "h i".into()], blanks_before: vec![0, 0, 1, 0, 0, 0], final_newline: true, initial: vec!["<{}>".into(), "k".into()], r: "{}".into(), spelling, modes, lead: vec![], latin1: false, delim: 0 };
+    let base = |modes: Vec<ModeOpt>, spelling: u8| Case { lines: vec!["a b".into(), "c".into(), "d e f".into(), "g".into(), "h i".into()], blanks_before: vec![0, 0, 1, 0, 0, 0], final_newline: true, initial: vec!["<{}>".into(), "k".into()], r: "{}".into(), spelling, modes, lead: vec![], latin1: false, delim: 0, no_command: false };
     for a in &opts {
         for b in &opts {
             if kind(a) == kind(b) {
